@@ -1,7 +1,7 @@
 (* Executable models of the HTTP request DECODERS (what the code does, not what it should do):
      encoding/ajson into the request structs  (internal/api/bulking/elements.go, internal/api/v1/controllers_transactions_create.go)
      bulking.TransactionRequest.ToCore, Postings.Validate (internal/posting.go)
-     vm.ScriptV1.ToCore (internal/machine/vm/run.go)     -- JSON-number amounts go through float64 and int()
+     vm.ScriptV1.UnmarshalJSON / ToCore (internal/machine/vm/run.go) -- JSON numbers kept as json.Number, rendered exactly (fixes/09)
      v1.Script.ToCore                                     -- a variable that is neither an object nor a string is an error
      bulking.BulkElement.UnmarshalJSON / UnmarshalBulkElementPayload, metadata.Metadata
    and of the amount codecs at the storage boundary (big.Int text, Volumes.Value/Scan through PostgreSQL's composite I/O).
@@ -44,15 +44,9 @@ Definition dec_uint64 (j : ajson) : decoded Z :=
 (* *big.Int : null -> nil pointer; big.Int.UnmarshalJSON accepts exactly the plain integer literals *)
 Definition dec_bigint_ptr (j : ajson) : decoded (option Z) :=
   match j with AJNum m None => Ok (Some m) | AJNull => Ok None | _ => ClientError EDecode end.
-(* `any`: everything decodes, numbers through strconv.ParseFloat(…, 64) which fails on overflow *)
-Fixpoint any_ok (j : ajson) : bool :=
-  match j with
-  | AJNum m e => match f64_of_lit m e with Some _ => true | None => false end
-  | AJArr l => forallb any_ok l
-  | AJObj l => forallb (fun kv => any_ok (snd kv)) l
-  | _ => true
-  end.
-Definition dec_any (j : ajson) : decoded ajson := if any_ok j then Ok j else ClientError EDecode.
+(* `any` inside vm.ScriptV1: decoded with json.Decoder.UseNumber (ScriptV1.UnmarshalJSON, fixes/09): everything decodes, a number
+   stays its literal text (json.Number) whatever its magnitude *)
+Definition dec_any (j : ajson) : decoded ajson := Ok j.
 Definition dec_raw (j : ajson) : decoded ajson := Ok j.        (* ajson.RawMessage *)
 
 Definition dec_map {A} (dec : ajson -> decoded A) (j : ajson) : decoded (list (string * A)) :=
@@ -75,6 +69,22 @@ Section WithTime.
 (* go-libs time.Time.UnmarshalJSON: null -> zero time; a string -> time.Parse(RFC3339Nano) rounded to µs, UTC
    (abstract here: any parser; instantiated by the OCaml glue, compared with the real one by the tie); anything else -> error *)
 Variable parse_time : string -> option Z.
+(* the text of a JSON literal with a fraction and/or an exponent, value m * 10^e. The code passes that text through verbatim
+   wherever a number is not an integer, so the model is parametric in the spelling (the harness spells deterministically from
+   (m, e); the OCaml glue carries the same function) *)
+Variable spell : Z -> Z -> string.
+Definition num_lit (m : Z) (e : option Z) : string := match e with None => zstr m | Some e => spell m e end.
+(* vm.numberText: an integer, however spelled, as its decimal digits; fractions and exponents beyond +-999 verbatim.
+   (the corpus spells -20 <= e < 0 positionally, without exponent: no guard applies there) *)
+Definition number_text (m : Z) (e : option Z) : string :=
+  match e with
+  | None => zstr m
+  | Some e =>
+      if (999 <? e) || (e <? -999) then spell m e
+      else if 0 <=? e then zstr (m * 10 ^ e)
+      else if m mod 10 ^ (- e) =? 0 then zstr (m / 10 ^ (- e))
+      else spell m e
+  end.
 Definition dec_time (j : ajson) : decoded (option Z) :=
   match j with
   | AJNull => Ok None
@@ -153,8 +163,7 @@ Fixpoint go_fmt (sverb top : bool) (j : ajson) : string :=
   | AJStr s => s
   | AJNull => if sverb && top then "%!s(<nil>)" else "<nil>"
   | AJBool b => let t := if b then "true" else "false" in if sverb then "%!s(bool=" ++ t ++ ")" else t
-  | AJNum m e => let t := match f64_of_lit m e with Some f => fmt_f64 f | None => "?" end in
-                if sverb then "%!s(float64=" ++ t ++ ")" else t
+  | AJNum m e => num_lit m e                                (* json.Number is a string kind: %v and %s print its text *)
   | AJArr l => "[" ++ sjoin " " (map (go_fmt sverb false) l) ++ "]"
   | AJObj l => "map[" ++ sjoin " " (map (fun kv => fst kv ++ ":" ++ snd kv) (mof (map (fun kv => (fst kv, go_fmt sverb false (snd kv))) l))) ++ "]"
   end.
@@ -176,12 +185,10 @@ Definition scriptv1_var (v : ajson) : option string :=
       let asset := match jfield "asset" m with Some a => go_fmt true true a | None => "%!s(<nil>)" end in
       match jfield "amount" m with
       | Some (AJStr a) => Some (asset ++ " " ++ a)
-      | Some (AJNum n e) => match f64_of_lit n e with
-                           | Some f => Some (asset ++ " " ++ zstr (f64_to_int f))       (* "%s %d", int(amount) *)
-                           | None => None (* unreachable after dec_any *)
-                           end
+      | Some (AJNum n e) => Some (asset ++ " " ++ number_text n e)                    (* json.Number: exact text *)
       | _ => None
       end
+  | AJNum n e => Some (number_text n e)                     (* a bare numeric variable *)
   | other => Some (go_fmt false true other)
   end.
 Definition scriptv1_to_core (s : rscript_v1) : script :=
